@@ -431,6 +431,9 @@ func (o *oracles) checkConverters(final bool) {
 		bytesOf[sl.ID] = sl.Bytes
 	}
 	for _, cn := range o.s.plan.Converters {
+		for id := range v.Conv[cn] {
+			o.everCached[fmt.Sprintf("%s/%d", cn, id)] = true
+		}
 		for id, d := range v.Conv[cn] {
 			if d == "empty" && bytesOf[id] == 0 {
 				continue
